@@ -42,8 +42,6 @@ import (
 )
 
 const (
-	svcMain     = "c16-svc"
-	svcOpen     = "c16-open"
 	maxValidity = 2 * time.Hour
 	openMaxVal  = 48 * time.Hour
 	hookBetween = "discovery.get.between"
@@ -92,6 +90,9 @@ type vpSpec struct {
 }
 
 type world struct {
+	id      int
+	svc     string // the service under test (restricted to did:jwk)
+	open    string // a second, unrestricted service on the same server
 	t       *testing.T
 	r       *ev.Run
 	s, c    *node.Node
@@ -176,7 +177,7 @@ func (w *world) signVP(p vpSpec) (string, string) {
 func (w *world) validSpec(s *subject) vpSpec {
 	// validity varies (all within the maximum, with a margin for the time the request takes)
 	val := maxValidity - time.Duration(60+w.rnd.Intn(3000))*time.Second
-	return vpSpec{signer: s.h, aud: []string{svcMain}, exp: time.Now().Add(val), creds: []json.RawMessage{s.cred}}
+	return vpSpec{signer: s.h, aud: []string{w.svc}, exp: time.Now().Add(val), creds: []json.RawMessage{s.cred}}
 }
 
 func tamperSig(tok string) string {
@@ -284,7 +285,7 @@ type model struct {
 	seed     string
 	seeds    map[string]int // every seed seen -> epoch
 	n        int
-	pending  [][]*entry     // accepted, timestamp not yet observed: groups in acceptance order (a group = concurrent, order unknown)
+	pending  [][]*entry // accepted, timestamp not yet observed: groups in acceptance order (a group = concurrent, order unknown)
 }
 
 func newModel() *model {
@@ -342,7 +343,16 @@ func (m *model) live(forClient bool) []string {
 
 // ---- HTTP helpers ---------------------------------------------------------------------------------------------
 
+var tim = map[string]time.Duration{}
+var timMu sync.Mutex
+
+func track(name string) func() {
+	t0 := time.Now()
+	return func() { timMu.Lock(); tim[name] += time.Since(t0); timMu.Unlock() }
+}
+
 func (w *world) post(svc string, body any) node.Resp {
+	defer track("post")()
 	data, _ := json.Marshal(body)
 	resp, err := node.Do("POST", w.s.Public+"/discovery/"+svc, data, map[string]string{"Content-Type": "application/json"})
 	if err != nil {
@@ -366,6 +376,7 @@ type listing struct {
 }
 
 func (w *world) getList(base, svc string, after int) listing {
+	defer track("getList")()
 	resp, err := node.Do("GET", fmt.Sprintf("%s/discovery/%s?timestamp=%d", base, svc, after), nil, nil)
 	if err != nil || resp.Status != 200 {
 		w.r.Fatalf("GET list: %v %s", err, resp)
@@ -414,6 +425,7 @@ type found struct {
 }
 
 func (w *world) search(n *node.Node, svc string, query string) []found {
+	defer track("search")()
 	u := n.Internal + "/internal/discovery/v1/" + svc
 	if query != "" {
 		u += "?" + query
@@ -438,6 +450,7 @@ func (w *world) search(n *node.Node, svc string, query string) []found {
 }
 
 func (w *world) vpVerifies(tok string) (bool, string) {
+	defer track("vpVerifies")()
 	resp, err := node.Do("POST", w.s.Internal+"/internal/vcr/v2/verifier/vp", map[string]any{"verifiablePresentation": tok}, nil)
 	if err != nil {
 		return false, err.Error()
@@ -455,7 +468,7 @@ func (w *world) vpVerifies(tok string) (bool, string) {
 // ---- reporting -------------------------------------------------------------------------------------------------
 
 func (w *world) note(format string, args ...any) {
-	w.log = append(w.log, fmt.Sprintf("h%d: ", w.ctx.idx)+fmt.Sprintf(format, args...))
+	w.log = append(w.log, fmt.Sprintf("w%d.h%d: ", w.id, w.ctx.idx)+fmt.Sprintf(format, args...))
 	if len(w.log) > 120 {
 		w.log = w.log[len(w.log)-120:]
 	}
@@ -469,7 +482,7 @@ func short(jti string) string {
 }
 
 func (w *world) violation(key, what string, extra map[string]any) {
-	wit := map[string]any{"history": w.ctx.idx, "events": append([]string{}, w.log...)}
+	wit := map[string]any{"world": w.id, "history": w.ctx.idx, "events": append([]string{}, w.log...)}
 	for k, v := range extra {
 		wit[k] = v
 	}
@@ -480,9 +493,9 @@ func (w *world) violation(key, what string, extra map[string]any) {
 
 // checkServer compares S's list (GET after 0, GET after a random timestamp, S's own search) with the model.
 // It runs at quiescent points only (no request in flight).
-func (w *world) checkServer(step string) {
+func (w *world) checkServer(step string, full bool) {
 	m := w.m
-	l := w.getList(w.s.Public, svcMain, 0)
+	l := w.getList(w.s.Public, w.svc, 0)
 	w.r.Count("server_list_reads", 1)
 	byJTI := map[string]listed{}
 	perSubject := map[string][]string{}
@@ -568,9 +581,9 @@ func (w *world) checkServer(step string) {
 		}
 	}
 	// everything after a random timestamp
-	if m.maxTS > 0 {
+	if m.maxTS > 0 && w.rnd.Intn(3) == 0 {
 		after := w.rnd.Intn(m.maxTS + 1)
-		l2 := w.getList(w.s.Public, svcMain, after)
+		l2 := w.getList(w.s.Public, w.svc, after)
 		w.r.Count("server_list_reads", 1)
 		got := map[string]bool{}
 		for _, it := range l2.entries {
@@ -586,12 +599,14 @@ func (w *world) checkServer(step string) {
 		}
 	}
 	// S's own search
-	w.compareSearch(w.s, "server", "", m.live(false), step)
+	if full || w.rnd.Intn(2) == 0 {
+		w.compareSearch(w.s, "server", "", m.live(false), step)
+	}
 }
 
 // compareSearch compares a node's search result with the expected live set (exact).
 func (w *world) compareSearch(n *node.Node, who, query string, want []string, step string) bool {
-	res := w.search(n, svcMain, query)
+	res := w.search(n, w.svc, query)
 	w.r.Count(who+"_searches", 1)
 	wantSet := map[string]bool{}
 	for _, j := range want {
@@ -665,13 +680,21 @@ func (w *world) ageOnClient() {
 	past := time.Now().Add(-time.Hour).Unix()
 	for _, e := range w.m.cur {
 		if e.aged {
-			w.cdb.Exec("UPDATE discovery_presentation SET presentation_expiration = ? WHERE service_id = ? AND presentation_id = ? AND presentation_expiration > ?", past, svcMain, e.jti, past)
+			w.cdb.Exec("UPDATE discovery_presentation SET presentation_expiration = ? WHERE service_id = ? AND presentation_id = ? AND presentation_expiration > ?", past, w.svc, e.jti, past)
 		}
 	}
 }
 
-func (w *world) poll(step string) {
-	err := discovery.VerifClientRefresh(w.cm)
+// poll: one pass of C's background routine (full), or only its updater for the service (as after an activation).
+func (w *world) poll(step string, full bool) {
+	defer track("poll")()
+	var err error
+	if full {
+		err = discovery.VerifClientRefresh(w.cm)
+		w.r.Count("polls_full_pass", 1)
+	} else {
+		err = discovery.VerifClientUpdate(w.cm, w.svc)
+	}
 	w.r.Count("polls", 1)
 	if err != nil {
 		w.r.Unspecified("poll-returned-error")
@@ -685,7 +708,7 @@ func (w *world) poll(step string) {
 // was accepted by S, that C could verify, that is not expired, at most one per subject, and - once C has polled after a
 // reset - of the current seed.
 func (w *world) checkClientSound(step string) {
-	res := w.search(w.c, svcMain, "")
+	res := w.search(w.c, w.svc, "")
 	w.r.Count("client_searches", 1)
 	seen := map[string]bool{}
 	for _, f := range res {
@@ -711,9 +734,9 @@ func (w *world) checkClientSound(step string) {
 
 // converge: at quiescence, at most two polls, then C's search must equal the live set exactly.
 func (w *world) converge(step string) {
-	w.poll(step)
-	first := fmt.Sprint(ids(w.search(w.c, svcMain, ""))) == fmt.Sprint(w.m.live(true))
-	w.poll(step)
+	w.poll(step, true)
+	first := fmt.Sprint(ids(w.search(w.c, w.svc, ""))) == fmt.Sprint(w.m.live(true))
+	w.poll(step, true)
 	ok := w.compareSearch(w.c, "client", "", w.m.live(true), step)
 	ok = w.compareSearch(w.c, "client", "credentialSubject.organization.name=Org*", w.m.live(true), step+"/query") && ok
 	w.r.Count("final_set_comparisons", 1)
@@ -726,11 +749,11 @@ func (w *world) converge(step string) {
 		}
 	} else {
 		// resynchronise so that one divergence is reported once: C starts over from an empty copy
-		w.cdb.Exec("DELETE FROM discovery_presentation WHERE service_id = ?", svcMain)
-		w.cdb.Exec("UPDATE discovery_service SET seed = '', last_lamport_timestamp = 0 WHERE id = ?", svcMain)
-		w.poll(step + "/resync")
+		w.cdb.Exec("DELETE FROM discovery_presentation WHERE service_id = ?", w.svc)
+		w.cdb.Exec("UPDATE discovery_service SET seed = '', last_lamport_timestamp = 0 WHERE id = ?", w.svc)
+		w.poll(step+"/resync", true)
 	}
-	w.r.Case(fmt.Sprintf("converge/h%d/%s/%d", w.ctx.idx, step, len(w.m.live(true))), len(w.m.cur) > 0)
+	w.r.Case(fmt.Sprintf("converge/w%d/h%d/%s/%d", w.id, w.ctx.idx, step, len(w.m.live(true))), len(w.m.cur) > 0)
 }
 
 func ids(fs []found) []string {
@@ -757,7 +780,7 @@ func (w *world) liveSubjects() []*subject {
 // register posts a valid presentation for s (registration or refresh) and updates the model.
 func (w *world) register(s *subject, p vpSpec, kind string) *entry {
 	tok, jti := w.signVP(p)
-	resp := w.post(svcMain, tok)
+	resp := w.post(w.svc, tok)
 	w.r.Count("events_"+kind, 1)
 	w.note("%s %s -> %s: %d", kind, s.name, short(jti), resp.Status)
 	if resp.Status != 201 {
@@ -779,7 +802,7 @@ func (w *world) evRegister(s *subject) {
 }
 
 func (w *world) retractSpec(s *subject, jti string) vpSpec {
-	return vpSpec{signer: s.h, aud: []string{svcMain}, exp: time.Now().Add(time.Hour), retraction: true, retractJTI: jti}
+	return vpSpec{signer: s.h, aud: []string{w.svc}, exp: time.Now().Add(time.Hour), retraction: true, retractJTI: jti}
 }
 
 func (w *world) evRetract(s *subject) {
@@ -790,7 +813,7 @@ func (w *world) evRetract(s *subject) {
 func (w *world) evExpire(s *subject) {
 	e := w.m.cur[s.h.DID]
 	past := time.Now().Add(-time.Hour).Unix()
-	res := w.sdb.Exec("UPDATE discovery_presentation SET presentation_expiration = ? WHERE service_id = ? AND presentation_id = ?", past, svcMain, e.jti)
+	res := w.sdb.Exec("UPDATE discovery_presentation SET presentation_expiration = ? WHERE service_id = ? AND presentation_id = ?", past, w.svc, e.jti)
 	if res.Error != nil || res.RowsAffected != 1 {
 		w.r.Fatalf("ageing %s: %v rows=%d", short(e.jti), res.Error, res.RowsAffected)
 	}
@@ -802,10 +825,10 @@ func (w *world) evExpire(s *subject) {
 }
 
 func (w *world) evReset() {
-	if err := w.sdb.Exec("DELETE FROM discovery_presentation WHERE service_id = ?", svcMain).Error; err != nil {
+	if err := w.sdb.Exec("DELETE FROM discovery_presentation WHERE service_id = ?", w.svc).Error; err != nil {
 		w.r.Fatalf("reset: %v", err)
 	}
-	if err := w.sdb.Exec("UPDATE discovery_service SET seed = '', last_lamport_timestamp = 0 WHERE id = ?", svcMain).Error; err != nil {
+	if err := w.sdb.Exec("UPDATE discovery_service SET seed = '', last_lamport_timestamp = 0 WHERE id = ?", w.svc).Error; err != nil {
 		w.r.Fatalf("reset: %v", err)
 	}
 	w.m.reset()
@@ -848,7 +871,7 @@ func (w *world) evBurst() {
 	var wg sync.WaitGroup
 	for i := range jobs {
 		wg.Add(1)
-		go func(i int) { defer wg.Done(); status[i] = w.post(svcMain, jobs[i].tok) }(i)
+		go func(i int) { defer wg.Done(); status[i] = w.post(w.svc, jobs[i].tok) }(i)
 	}
 	wg.Wait()
 	var group []*entry
@@ -870,6 +893,7 @@ func (w *world) evBurst() {
 // timestamp read and row read), a seeded scheduler decides who goes first. Registrations released before the poll
 // fall into the window, the others follow the poll.
 func (w *world) evRace(pre bool) {
+	defer track("race")()
 	w.ctx.hadRace = true
 	if pre && w.rnd.Intn(10) < 7 {
 		// something C has not seen yet, so that the poll has entries to store
@@ -906,7 +930,7 @@ func (w *world) evRace(pre bool) {
 	ep := sched.Begin(sched.Options{Actors: k + 1, Rand: rand.New(rand.NewSource(w.rnd.Int63())), Stall: 10 * time.Second,
 		Watch: func(point string, args []any) bool {
 			if point == hookBetween {
-				return len(args) > 0 && args[0] == svcMain
+				return len(args) > 0 && args[0] == w.svc
 			}
 			return strings.HasPrefix(point, "c16.reg")
 		}})
@@ -916,7 +940,7 @@ func (w *world) evRace(pre bool) {
 	go func() {
 		defer wg.Done()
 		defer ep.ActorDone()
-		pollErr = discovery.VerifClientRefresh(w.cm)
+		pollErr = discovery.VerifClientUpdate(w.cm, w.svc)
 	}()
 	for i := range jobs {
 		wg.Add(1)
@@ -924,7 +948,7 @@ func (w *world) evRace(pre bool) {
 			defer wg.Done()
 			defer ep.ActorDone()
 			verifhook.Point(fmt.Sprintf("c16.reg%d", i))
-			jobs[i].resp = w.post(svcMain, jobs[i].tok)
+			jobs[i].resp = w.post(w.svc, jobs[i].tok)
 		}(i)
 	}
 	done := make(chan struct{})
@@ -1008,7 +1032,7 @@ func defects() []defect {
 			now := time.Now()
 			return map[string]any{"@context": []string{"https://www.w3.org/2018/credentials/v1", "https://w3c-ccg.github.io/lds-jws2020/contexts/lds-jws2020-v1.json"},
 				"id": id, "type": []string{"VerifiablePresentation"}, "holder": s.h.DID, "verifiableCredential": []json.RawMessage{s.cred},
-				"proof": map[string]any{"type": "JsonWebSignature2020", "created": now.Format(time.RFC3339), "expires": now.Add(time.Hour).Format(time.RFC3339), "domain": svcMain,
+				"proof": map[string]any{"type": "JsonWebSignature2020", "created": now.Format(time.RFC3339), "expires": now.Add(time.Hour).Format(time.RFC3339), "domain": w.svc,
 					"challenge": "c", "proofPurpose": "assertionMethod", "verificationMethod": s.h.KID, "jws": "eyJhbGciOiJFUzI1NiIsImI2NCI6ZmFsc2UsImNyaXQiOlsiYjY0Il19..AAAA"}}, id, true
 		}},
 		{class: "no-id", build: func(w *world) (any, string, bool) {
@@ -1018,7 +1042,7 @@ func defects() []defect {
 		}},
 		{class: "audience-of-other-service", calibrate: true, build: func(w *world) (any, string, bool) {
 			p := w.validSpec(w.anySubject())
-			p.aud = []string{svcOpen}
+			p.aud = []string{w.open}
 			return str(w.signVP(p))
 		}},
 		{class: "audience-missing", calibrate: true, build: func(w *world) (any, string, bool) {
@@ -1028,7 +1052,7 @@ func defects() []defect {
 		}},
 		{class: "audience-is-url-not-id", calibrate: true, build: func(w *world) (any, string, bool) {
 			p := w.validSpec(w.anySubject())
-			p.aud = []string{w.s.Public + "/discovery/" + svcMain, "https://example.com"}
+			p.aud = []string{w.s.Public + "/discovery/" + w.svc, "https://example.com"}
 			return str(w.signVP(p))
 		}},
 		{class: "validity-exceeds-max", calibrate: true, build: func(w *world) (any, string, bool) {
@@ -1193,7 +1217,7 @@ func (w *world) evDefect(d defect) {
 			w.r.Fatalf("calibration: presentation of class %s does not verify as such (%s); the class would be refused for another reason", d.class, msg)
 		}
 	}
-	resp := w.post(svcMain, body)
+	resp := w.post(w.svc, body)
 	w.r.Count("defective_registrations", 1)
 	w.r.Count("defective_"+d.class, 1)
 	w.note("defective %s -> %s: %d", d.class, short(jti), resp.Status)
@@ -1210,12 +1234,12 @@ func (w *world) evDefect(d defect) {
 
 // ---- the check ----------------------------------------------------------------------------------------------------
 
-func writeDefinitions(dir, endpointBase string) error {
+func writeDefinitions(dir, endpointBase, svc, open string) error {
 	for _, d := range []struct {
 		id      string
 		methods string
 		max     time.Duration
-	}{{svcMain, `"did_methods":["jwk"],`, maxValidity}, {svcOpen, "", openMaxVal}} {
+	}{{svc, `"did_methods":["jwk"],`, maxValidity}, {open, "", openMaxVal}} {
 		doc := fmt.Sprintf(`{"id":%q,%s"endpoint":%q,"presentation_max_validity":%d,"presentation_definition":%s}`,
 			d.id, d.methods, endpointBase+"/discovery/"+d.id, int(d.max.Seconds()), pdJSON)
 		if err := os.WriteFile(filepath.Join(dir, d.id+".json"), []byte(doc), 0o644); err != nil {
@@ -1238,32 +1262,69 @@ func TestCheck(t *testing.T) {
 	r := ev.Start(t, "C16", "exploration")
 	defer r.Finish()
 	r.SetRule("cases: seeded histories (~25 events) of register / refresh / retract / expire (SQL ageing) / defective registrations / server resets / client polls on one service of a real server node, " +
-		"with a real client node polling it; one case per final-set comparison at quiescence (non-trivial when the list is not empty), per defective registration (class x list size) and per racing episode " +
-		"(poll parked between the server's timestamp read and row read while 1-2 registrations are released before or after it; distinct by the released order; non-trivial when a registration fell into the window). " +
-		"After every event the server's list (GET after 0, GET after a random timestamp, its search) is compared with the reference model.")
+		"with a real client node polling it (several independent server/client pairs run their histories in parallel); one case per final-set comparison at quiescence (non-trivial when the list is not empty), " +
+		"per defective registration (class x list size) and per racing episode (poll parked between the server's timestamp read and row read while 1-2 registrations are released before or after it; " +
+		"distinct by the released order; non-trivial when a registration fell into the window). After every event the server's list (GET after 0, GET after a random timestamp, its search) is compared with the reference model.")
 	r.Require(r.Pick(150, 1500), r.Pick(60, 300))
 	r.Assume("SQLite with a single connection: database transactions are serialised; row-lock behaviour of other engines is not exercised")
 	r.Assume("expiry is virtual: presentation_expiration is aged by SQL in the server's table and in the client's copy; the JWT exp claim itself is not in the past")
 	r.Assume("a server reset is produced by emptying the service's rows and seed in the server's database (the state of a fresh database), not by reinstalling the node")
 
+	worlds := r.Pick(4, 8)
+	perWorld := r.Pick(8, 50) // 32 / 400 histories
+	var ws []*world
+	for i := 0; i < worlds; i++ {
+		ws = append(ws, newWorld(t, r, i))
+	}
+	var wg sync.WaitGroup
+	for _, w := range ws {
+		wg.Add(1)
+		go func(w *world) {
+			defer wg.Done()
+			w.run(perWorld)
+		}(w)
+	}
+	wg.Wait()
+	hits, epochs := 0, 0
+	for _, w := range ws {
+		w.lists.mu.Lock()
+		hits += w.lists.hits
+		w.lists.mu.Unlock()
+		epochs += w.m.epoch + 1
+	}
+	r.Extra("status_list_fetches_observed", hits)
+	r.Extra("server_epochs", epochs)
+	r.Extra("worlds", worlds)
+	for k, v := range tim {
+		r.Extra("wall_s_in_"+k, v.Seconds())
+	}
+	if r.Get("race_episodes_steered") == 0 || r.Get("registrations_inside_get_window") == 0 {
+		r.Fatalf("no registration was steered into the window of get: the hook was never reached")
+	}
+	if hits == 0 {
+		r.Fatalf("no status list was ever fetched: revoked / unverifiable cases observed nothing")
+	}
+}
+
+func newWorld(t *testing.T, r *ev.Run, id int) *world {
+	w := &world{id: id, svc: fmt.Sprintf("c16-svc-%d", id), open: fmt.Sprintf("c16-open-%d", id), t: t, r: r, m: newModel(),
+		rnd: r.Rand(fmt.Sprintf("c16-world-%d", id)), issuer: iamflow.NewHolder(), tokens: map[string]string{}}
 	dir, err := os.MkdirTemp("", "c16-defs-")
 	if err != nil {
 		r.Fatalf("tempdir: %v", err)
 	}
-	defer os.RemoveAll(dir)
+	t.Cleanup(func() { os.RemoveAll(dir) })
 	sAddr := freeAddr()
-	if err := writeDefinitions(dir, "http://"+sAddr); err != nil {
+	if err := writeDefinitions(dir, "http://"+sAddr, w.svc, w.open); err != nil {
 		r.Fatalf("definitions: %v", err)
 	}
 	cfg := "discovery:\n  definitions:\n    directory: " + dir + "\n  client:\n    refresh_interval: 0s\n"
-	s := node.Start(t, node.Options{Config: cfg, Env: map[string]string{
-		"NUTS_HTTP_PUBLIC_ADDRESS": sAddr, "NUTS_URL": "http://" + sAddr, "NUTS_DISCOVERY_SERVER_IDS": svcMain + "," + svcOpen}})
-	c := node.Start(t, node.Options{Config: cfg})
-
-	w := &world{t: t, r: r, s: s, c: c, m: newModel(), rnd: r.Rand("c16"), issuer: iamflow.NewHolder(), tokens: map[string]string{}}
-	w.sdb = node.Engine[storage.Engine](s).GetSQLDatabase()
-	w.cdb = node.Engine[storage.Engine](c).GetSQLDatabase()
-	w.cm = node.Engine[*discovery.Module](c)
+	w.s = node.Start(t, node.Options{Config: cfg, Env: map[string]string{
+		"NUTS_HTTP_PUBLIC_ADDRESS": sAddr, "NUTS_URL": "http://" + sAddr, "NUTS_DISCOVERY_SERVER_IDS": w.svc + "," + w.open}})
+	w.c = node.Start(t, node.Options{Config: cfg})
+	w.sdb = node.Engine[storage.Engine](w.s).GetSQLDatabase()
+	w.cdb = node.Engine[storage.Engine](w.c).GetSQLDatabase()
+	w.cm = node.Engine[*discovery.Module](w.c)
 	if w.sdb == nil || w.cdb == nil || w.cm == nil {
 		r.Fatalf("engines not found")
 	}
@@ -1290,46 +1351,48 @@ func TestCheck(t *testing.T) {
 	w.keySubj = &subject{name: "key", h: kh}
 	w.keySubj.cred = w.mkCred(kh.DID, credOpts{})
 
-	// calibration: the did:key subject and a presentation valid for longer than c16-svc allows are accepted by the unrestricted service
-	{
-		p := w.validSpec(w.keySubj)
-		p.aud = []string{svcOpen}
-		tok, _ := w.signVP(p)
-		if resp, _ := node.Do("POST", s.Public+"/discovery/"+svcOpen, mustJSON(tok), map[string]string{"Content-Type": "application/json"}); resp.Status != 201 {
-			r.Fatalf("calibration: did:key registration on the unrestricted service refused: %s", resp)
-		}
-		p = w.validSpec(w.subj[0])
-		p.aud = []string{svcOpen}
-		p.exp = time.Now().Add(maxValidity + time.Hour)
-		tok, _ = w.signVP(p)
-		if resp, _ := node.Do("POST", s.Public+"/discovery/"+svcOpen, mustJSON(tok), map[string]string{"Content-Type": "application/json"}); resp.Status != 201 {
-			r.Fatalf("calibration: long-lived registration on the service that allows it refused: %s", resp)
-		}
-		if l := w.getList(s.Public, svcOpen, 0); len(l.entries) != 2 {
-			r.Fatalf("calibration: unrestricted service lists %d entries, want 2", len(l.entries))
-		}
-		if l := w.getList(s.Public, svcMain, 0); len(l.entries) != 0 {
-			w.violation("C16/server/entry-of-other-service-listed", "a registration on another service appears on this service's list", nil)
-		}
-		// C serves the list by forwarding to S (it is not a server for the service)
-		if l := w.getList(c.Public, svcOpen, 0); len(l.entries) != 2 {
-			r.Fatalf("calibration: client node does not forward list requests: %d entries", len(l.entries))
-		}
+	// calibration: the did:key subject and a presentation valid for longer than the service under test allows are accepted by the unrestricted service
+	hdr := map[string]string{"Content-Type": "application/json"}
+	p := w.validSpec(w.keySubj)
+	p.aud = []string{w.open}
+	tok, _ := w.signVP(p)
+	if resp, _ := node.Do("POST", w.s.Public+"/discovery/"+w.open, mustJSON(tok), hdr); resp.Status != 201 {
+		r.Fatalf("calibration: did:key registration on the unrestricted service refused: %s", resp)
 	}
+	p = w.validSpec(w.subj[0])
+	p.aud = []string{w.open}
+	p.exp = time.Now().Add(maxValidity + time.Hour)
+	tok, _ = w.signVP(p)
+	if resp, _ := node.Do("POST", w.s.Public+"/discovery/"+w.open, mustJSON(tok), hdr); resp.Status != 201 {
+		r.Fatalf("calibration: long-lived registration on the service that allows it refused: %s", resp)
+	}
+	if l := w.getList(w.s.Public, w.open, 0); len(l.entries) != 2 {
+		r.Fatalf("calibration: unrestricted service lists %d entries, want 2", len(l.entries))
+	}
+	if l := w.getList(w.s.Public, w.svc, 0); len(l.entries) != 0 {
+		w.violation("C16/server/entry-of-other-service-listed", "a registration on another service appears on this service's list", nil)
+	}
+	// C is not a server for the service: it serves the list by forwarding to S
+	if l := w.getList(w.c.Public, w.open, 0); len(l.entries) != 2 {
+		r.Fatalf("calibration: client node does not forward list requests: %d entries", len(l.entries))
+	}
+	return w
+}
 
+func (w *world) run(histories int) {
+	r := w.r
 	allDefects := defects()
-	histories := r.Pick(30, 400)
 	eventsPer := 25
-	defectIdx := 0
+	defectIdx := w.id * 5
 	for h := 0; h < histories; h++ {
 		w.ctx = histCtx{idx: h}
 		var kinds []string
 		// directed openings (seeded): a reset overtaken by registrations before the client polls again; a reset with the first registrations racing the poll
 		switch {
-		case h%5 == 2:
+		case (h+w.id)%5 == 2:
 			w.resetOvertake()
 			kinds = append(kinds, "reset-overtake")
-		case h%5 == 4:
+		case (h+w.id)%5 == 4:
 			w.resetThenRace()
 			kinds = append(kinds, "reset-race")
 		}
@@ -1365,7 +1428,7 @@ func TestCheck(t *testing.T) {
 				}
 			case x < 69:
 				kind = "poll"
-				w.poll("poll")
+				w.poll("poll", w.rnd.Intn(3) == 0)
 				w.note("poll")
 				w.checkClientSound(fmt.Sprintf("h%d/e%d", h, e))
 			case x < 78:
@@ -1391,25 +1454,17 @@ func TestCheck(t *testing.T) {
 				continue
 			}
 			kinds = append(kinds, kind)
-			w.checkServer(fmt.Sprintf("h%d/e%d/%s", h, e, kind))
+			w.checkServer(fmt.Sprintf("h%d/e%d/%s", h, e, kind), kind == "retract" || kind == "expire" || kind == "plant" || kind == "reset" || kind == "defective")
 			if kind == "race" && w.rnd.Intn(2) == 0 {
 				w.converge(fmt.Sprintf("e%d-after-race", e))
 			}
 		}
 		w.converge("end")
-		w.checkServer(fmt.Sprintf("h%d/end", h))
+		w.checkServer(fmt.Sprintf("h%d/end", h), true)
 		r.Count("histories", 1)
-		if h < 3 {
-			r.Sample(map[string]any{"history": h, "events": kinds, "live_at_end": len(w.m.live(false)), "entries_at_end": len(w.m.cur), "epoch": w.m.epoch})
+		if h == 0 && w.id < 3 {
+			r.Sample(map[string]any{"world": w.id, "history": h, "events": kinds, "live_at_end": len(w.m.live(false)), "entries_at_end": len(w.m.cur), "epoch": w.m.epoch})
 		}
-	}
-	r.Extra("status_list_fetches_observed", w.lists.hits)
-	r.Extra("server_epochs", w.m.epoch+1)
-	if r.Get("race_episodes_steered") == 0 || r.Get("registrations_inside_get_window") == 0 {
-		r.Fatalf("no registration was steered into the window of get: the hook was never reached")
-	}
-	if w.lists.hits == 0 {
-		r.Fatalf("no status list was ever fetched: revoked / unverifiable cases observed nothing")
 	}
 }
 
@@ -1423,19 +1478,19 @@ func (w *world) resetOvertake() {
 	for i := 0; i < k; i++ {
 		w.evRegister(w.anySubject())
 	}
-	w.checkServer("reset-overtake/first-seed")
-	w.poll("reset-overtake")
-	w.poll("reset-overtake")
+	w.checkServer("reset-overtake/first-seed", false)
+	w.poll("reset-overtake", true)
+	w.poll("reset-overtake", false)
 	w.note("poll x2")
 	w.evReset()
-	w.checkServer("reset-overtake/reset")
+	w.checkServer("reset-overtake/reset", true)
 	for _, s := range w.subj {
 		w.evRegister(s)
 	}
 	for i := 0; i < w.rnd.Intn(3); i++ {
 		w.evRegister(w.anySubject())
 	}
-	w.checkServer("reset-overtake/registered")
+	w.checkServer("reset-overtake/registered", true)
 	w.converge("reset-overtake")
 	w.r.Count("scenario_reset_overtake", 1)
 }
@@ -1443,17 +1498,17 @@ func (w *world) resetOvertake() {
 // resetThenRace: reset, the client learns about the empty list, then the first registrations of the new seed race its poll.
 func (w *world) resetThenRace() {
 	w.evReset()
-	w.checkServer("reset-race/reset")
+	w.checkServer("reset-race/reset", true)
 	if w.rnd.Intn(2) == 0 {
-		w.poll("reset-race")
+		w.poll("reset-race", w.rnd.Intn(2) == 0)
 		w.note("poll")
 	}
 	w.evRace(false)
-	w.checkServer("reset-race/raced")
+	w.checkServer("reset-race/raced", true)
 	for i := 0; i < 1+w.rnd.Intn(3); i++ {
 		w.evRegister(w.anySubject())
 	}
-	w.checkServer("reset-race/registered")
+	w.checkServer("reset-race/registered", false)
 	w.converge("reset-race")
 	w.r.Count("scenario_reset_race", 1)
 }
